@@ -1,6 +1,9 @@
 use core::f64;
 
+#[cfg(not(feature = "verif-hooks"))]
 use ahash::HashSet;
+#[cfg(feature = "verif-hooks")]
+use crate::verif_hooks::HashSet;
 use itertools::Itertools;
 use num::Zero;
 use serde::{Deserialize, Serialize};
